@@ -90,7 +90,7 @@ Section AnyN.
   Proof using Hf Hn. unfold tree_glwe_rotate_assign, t_vec_znx_rotate_assign, take_words. apply need_loop_take. autounfold with c12gen. lia. Qed.
 
   (* LWE: one-coefficient plaintext (8 * size bytes), then the 64-aligned normalisation scratch; the formula rounds the
-     first level up to DEFAULTALIGN (fix d19ca82; before it the call failed whenever size was not a multiple of 8) *)
+     first level up to DEFAULTALIGN (fix 936bfd3; before it the call failed whenever size was not a multiple of 8) *)
   Lemma lwe_tree_ok (b1 sz : Z) : 0 <= sz -> b1 = next_multiple_of (8 * sz) 64 + 24 * n ->
     run_takes (Seq (Need b1) (Seq (Take (8 * sz)) (Scoped (Take (24 * n / 8 * 8))))) (0, b1) <> None.
   Proof using Hf Hn.
